@@ -28,7 +28,7 @@ TROOT = os.path.join(REPO, 'pybufrkit', 'tables')
 def consts(what, mversion=33, local=None, alphabet=ALPHABET, maxlen=5, recorded=None):
     return {'Alphabet': fm94.tla_set(alphabet), 'MaxLen': str(maxlen), 'What': tlc.tla_str(what),
             'Recorded': tlc.tla_val(recorded) if recorded else '<<>>',
-            'TableDirs': tlc.tla_val(fm94.table_dirs(mversion, local))}
+            'TableDirs': tlc.tla_val(fm94.table_dirs(mversion, local)), 'ExtraB': '<<>>', 'ExtraD': '<<>>'}
 
 
 def shape_of(template):
